@@ -919,7 +919,7 @@ impl Monitors {
         let receiving = |s: &str| s == "established" || s == "fin-wait-1" || s == "fin-wait-2";
         let can_receive = rec.obs_after.as_ref().map(|o| receiving(o.state)).unwrap_or(false) && rec.obs_before.as_ref().map(|o| receiving(o.state)).unwrap_or(false);
         if can_receive && w.reader.is_some() && transport_ok && !deliver2 && !self.fin_from_peer_seen {
-            if let (Some(Act::Read(_)), Some(o)) = (act, &rec.obs_after) {
+            if let (Some(Act::Read(_) | Act::ReadV(..)), Some(o)) = (act, &rec.obs_after) {
                 let before_wnd = self.last_adv_wnd_before(rec);
                 let free = w.cfg.rx_buf.saturating_sub(o.rx_queue_bytes + o.rx_ooq_bytes);
                 if before_wnd == 0 && free >= o.mss as usize {
